@@ -140,7 +140,9 @@ fn boundary_lens(kid: u8, thorough: bool) -> Vec<usize> {
 
 pub fn rand_len(ctx: &mut Ctx, kid: u8) -> usize {
     if !kind_is_fixed(kid) && ctx.allow_huge.get() && ctx.rng.chance(1, if ctx.thorough { 12 } else { 40 }) {
-        return ctx.rng.pick(&[4160usize, 4224, 6400, 8192, 8256, 8320, 12800, 16448, 20000, 33000, 40004]) + ctx.rng.below(3) as usize - 1;
+        // (lengths beyond 16 000 bits are exercised by dedicated cases of C06 and C13 only: comparison and multiplication
+        // in the model are quadratic in the number of words)
+        return ctx.rng.pick(&[4160usize, 4224, 6400, 8192, 8256, 8320, 12800]) + ctx.rng.below(3) as usize - 1;
     }
     let mut b = boundary_lens(kid, ctx.thorough);
     b.retain(|l| *l <= ctx.max_len.get());
@@ -821,6 +823,19 @@ fn gen_c05(ctx: &mut Ctx) {
 
 fn gen_c06(ctx: &mut Ctx) {
     ctx.allow_huge.set(true);
+    // word-aligned rotations (length and amount multiples of 64) of vectors owning spare storage words
+    for k in [KD, KA] {
+        for len in [128usize, 192, 256, 320, 512] {
+            for spare in [0usize, 1, 2] {
+                let l: Vec<u64> = (0..len / 64).map(|_| ctx.rng.next() | 1).collect();
+                let a = make_val(k, len, &l, spare, true);
+                for r in (64..len).step_by(64) {
+                    ctx.emit(Case::new(54).arg(r as u128).val(a.clone()));
+                    ctx.emit(Case::new(55).arg(r as u128).val(a.clone()));
+                }
+            }
+        }
+    }
     // rotations of vectors longer than any internal stash (256 words = 16384 bits), amounts beyond it
     for k in [KD, KA] {
         for len in [16385usize, 20000, 33001] {
@@ -1356,7 +1371,9 @@ fn gen_c08(ctx: &mut Ctx) {
 }
 
 fn gen_c09(ctx: &mut Ctx) {
-    ctx.allow_huge.set(true);
+    // the model's cross-type comparison costs seconds on 12 800-bit operands: the huge class only in the quick tier,
+    // where it is 1 case in 40
+    ctx.allow_huge.set(!ctx.thorough);
     high_word_pairs(ctx);
     let pp = ctx.scale(14, 140);
     for ka in 0..NKINDS {
